@@ -41,7 +41,28 @@ CONTS = collections.OrderedDict([
     ("ircam", (0x0A0000, [(c, [0, LE, BE, CPU]) for c in (PCM16, PCM32, FLT, ULAW, ALAW)], [1, 2, 3])),
     ("paf", (0x050000, [(c, [0, LE, BE, CPU]) for c in (PCM8S, PCM16)], [1, 2, 3])),
     ("htk", (0x100000, [(PCM16, [0, BE])], [1])),
+    # second group (lean/SfModel/HandleGInst3.lean).  A few refused combinations are kept (SVX little-endian / stereo, VOC 3 channels).
+    ("svx", (0x060000, [(PCM8S, [0, BE, BE, LE]), (PCM16, [0, BE, BE, CPU])], [1, 1, 1, 1, 2])),
+    ("mpc2k", (0x210000, [(PCM16, [0, LE])], [1, 2])),
+    ("wve", (0x190000, [(ALAW, [0])], [1])),
+    ("pvf", (0x0E0000, [(c, [0, BE]) for c in (PCM8S, PCM16, PCM32)], [1, 2, 3])),
+    ("mat4", (0x0C0000, [(c, [0, LE, BE, CPU]) for c in (PCM16, PCM32, FLT, DBL)], [1, 2, 3])),
+    ("mat5", (0x0D0000, [(c, [0, LE, BE, CPU]) for c in (PCM8U, PCM16, PCM32, FLT, DBL)], [1, 2, 3])),
+    ("nist", (0x070000, [(c, [0, LE, BE, CPU]) for c in (PCM8S, PCM16, PCM24, PCM32, ULAW, ALAW)], [1, 2, 3])),
+    ("voc", (0x080000, [(c, [0, LE]) for c in (PCM8U, PCM16, ULAW, ALAW)], [1, 2, 1, 2, 1, 2, 3])),
 ])
+
+
+def mat5_text(ctx):
+    """the 124 text bytes a MAT5 header starts with (package name and version, the harness's pinned date): a parameter of the model,
+    taken from a header the library writes (as vlib/small4.py does)"""
+    t = getattr(ctx, "_handleg_mat5_text", None)
+    if t is None:
+        out = ctx.batch([("mat5text", "open h1 s0 w fmt=000d0002 ch=1 sr=8000\nclose h1\ndump s0\n")], workers=1).get("mat5text", [])
+        hx = [l.split("hex=", 1)[1].strip() for l in out if l.startswith("len=") and "hex=" in l]
+        t = hx[-1][:248] if hx and len(hx[-1]) >= 248 else ""
+        ctx._handleg_mat5_text = t
+    return t
 
 
 def instantiated(ctx):
@@ -66,13 +87,20 @@ def gen(rng, entry, max_ops=24, modes=("w", "r", "rw")):
     # the PEAK clamp of scripts.gen_rw_script keys on the name "wav"; the other float writers with a PEAK chunk get the same treatment
     key = "wav" if (name in ("aiff", "caf") and codec in (FLT, DBL)) else name
     text = S.gen_rw_script(rng, (key, fmt, codec), max_ops=max_ops, modes=modes, ch=ch)
+    if rng.random() < 0.2:
+        # the rates where the 16-bit rate fields (SVX, MPC2K) saturate and MAT5 changes its rate element
+        import re
+        text = re.sub(r" sr=\d+", " sr=%d" % rng.choice([65535, 65536]), text)
     return text, ch
 
 
 def run_model(ctx, scripts, workers=3):
+    text = mat5_text(ctx)
+    margs = ["handleg"] + (["text=" + text] if text else [])
+
     def one(chunk):
         inp = "".join("== %s\n%s%s" % (n, t, "" if t.endswith("\n") else "\n") for (n, t) in chunk)
-        out = ctx.run_model(["handleg"], inp, timeout=3600)
+        out = ctx.run_model(margs, inp, timeout=3600)
         res, cur = {}, None
         for line in out.split("\n"):
             if line.startswith("== end"):
